@@ -915,8 +915,11 @@ time_zone::absolute_lookup TimeZoneInfo::BreakTime(
       const std::int_fast64_t diff =
           unix_time - transitions_[timecnt - 1].unix_time;
       const year_t shift = diff / kSecsPer400Years + 1;
-      const auto d = seconds(shift * kSecsPer400Years);
-      time_zone::absolute_lookup al = BreakTime(tp - d);
+      // Step back in two moves: shift * kSecsPer400Years itself can exceed
+      // the seconds range when the last transition is early enough.
+      const auto d = seconds((shift - 1) * kSecsPer400Years);
+      time_zone::absolute_lookup al =
+          BreakTime(tp - d - seconds(kSecsPer400Years));
       al.cs = YearShift(al.cs, shift * 400);
       return al;
     }
